@@ -331,7 +331,9 @@ var geoms = []orb.Geometry{
 var ids = []interface{}{nil, 0, 1, int8(7), int16(7), int32(7), int64(1) << 40, uint(7), uint8(7), uint16(7), uint32(7), uint64(1) << 50, float32(7), float64(12), 1 << 31}
 
 var values = []interface{}{"", "1", true, false, int(1), int8(1), int16(1), int32(1), int64(1), uint(1), uint8(1), uint16(1), uint32(1), uint64(1), float32(1), float64(1),
-	float32(0.5), float64(0.5), float32(0.1), float64(0.1), float64(float32(0.1)), int64(-1), nil, []int{1}, map[string]int{"a": 1}, strer{}, 1e21, int64(-1) << 40, uint64(1) << 63}
+	float32(0.5), float64(0.5), float32(0.1), float64(0.1), float64(float32(0.1)), int64(-1), nil, []int{1}, map[string]int{"a": 1}, strer{}, 1e21, int64(-1) << 40, uint64(1) << 63,
+	// strings and string lists whose JSON text needs escaping (uncomparable values travel as their encoding/json text)
+	"Fish & <Chips>\x07\u2028", []string{"Fish & Chips", "bell\x07", "nb\u00a0sp", "del\x7f"}, []interface{}{"<tag>", "q\"uote", "bad\xff"}, []string{}, []interface{}{"a", 1}}
 
 var keys = []string{"a", "b", "", "ä"}
 
